@@ -138,6 +138,11 @@ func (Engine) Shrink(plan interface{}, try func(interface{}) bool) interface{} {
 				return ok
 			},
 			func(p *Plan) bool {
+				ok := p.CacheKind == CacheMapDirect
+				p.CacheKind = CacheMap
+				return ok
+			},
+			func(p *Plan) bool {
 				ok := p.CacheKind == CacheMap
 				p.CacheKind, p.CacheCap = CacheLRU, 8
 				return ok
